@@ -53,7 +53,9 @@ CHECKS = {
              "GeoCoords::Reset): throw type (X1), outputs committed last (X3), NUL rejected by lookup (X2b); and the "
              "tools' clause (R-TOOL): in each of the 11 line-oriented tools every may-throw call of the per-line loop "
              "is inside a try whose std::exception handler emits an ERROR line, sets the non-zero status main returns, "
-             "and a line terminator is written on both paths.",
+             "and a line terminator is written on both paths; and (S1) in the symbol-replacement sequence of DMS::Decode "
+             "no earlier pattern occurs inside a later one (else a documented multi-byte symbol is mangled before it "
+             "can match).",
         note="Closure of format->parse, carry normalisation and half-ulp fidelity are NOT decided.",
         technique="CFG typestate (commit-last) + throw-site audit",
         ref="3.4, 4 (C10)"),
@@ -163,7 +165,8 @@ CHECKS = {
         ref="3.5 T1, 4 (C09)"),
     'C15': dict(
         text="Sibling agreement of all 30 AuxLatitude conversion blocks and both radius series (533 monomials) and "
-             "consistency of the ptrs[] offsets with the layout the consumer loop implies (T2).",
+             "consistency of the ptrs[] offsets with the layout the consumer loop implies (T2); and (F1) every call from "
+             "Ellipsoid into AuxLatitude passes exact = true, as the class documents (17 call sites).",
         note="NARROW: values of the conversions, Ellipsoid and EllipticFunction are not decided. 273 order-6 monomials "
              "have a single sibling (order 8).",
         technique="contradiction rule over sibling constant tables + layout consistency of offset table",
